@@ -137,6 +137,20 @@ func (p *Prog) ResolveFields() {
 			if _, still := cur[f.Name]; still || (f.Name != "" && f.Name[0] >= 'A' && f.Name[0] <= 'Z') {
 				continue
 			}
+			// same position, same type, a name that was not recorded: that is the field
+			ts := func(v *types.Var) string {
+				return types.TypeString(v.Type(), func(q *types.Package) string { return q.Name() })
+			}
+			if idx := indexOfField(rec, f.Name); idx >= 0 && idx < st.NumFields() && len(rec) == st.NumFields() {
+				if v := st.Field(idx); !recorded[v.Name()] && ts(v) == f.Type {
+					p.FieldAlias[v] = f.Name
+					if p.Relocated == nil {
+						p.Relocated = map[string]string{}
+					}
+					p.Relocated["field "+key+"."+f.Name] = v.Name()
+					continue
+				}
+			}
 			var cands []*types.Var
 			for j := 0; j < st.NumFields(); j++ {
 				v := st.Field(j)
@@ -156,6 +170,15 @@ func (p *Prog) ResolveFields() {
 			}
 		}
 	}
+}
+
+func indexOfField(rec []FieldPrint, name string) int {
+	for i, f := range rec {
+		if f.Name == name {
+			return i
+		}
+	}
+	return -1
 }
 
 // AnchorPrint is what identifies an anchor function besides its name.
